@@ -228,7 +228,10 @@ func TestVerifC09Mid(t *testing.T) {
 	clk = fakeclock.NewFakeClock(c09mNow)
 	defer func() { clk = old }()
 	var rc c09mCase
-	if _, ok := env.ReplayData(&rc); ok {
+	if part, ok := env.ReplayData(&rc); ok {
+		if part != "mid-calculate" {
+			return
+		}
 		o := c09mRun(&rc)
 		fmt.Printf("REPLAY case=%+v -> %+v\n", rc, o)
 		return
